@@ -45,10 +45,13 @@ def rule_enrich(model: Model):
                 continue
             qname = n.targets[0].elts[0].id if isinstance(n.targets[0].elts[0], ast.Name) else None
             rname = n.targets[0].elts[1].id if isinstance(n.targets[0].elts[1], ast.Name) else None
-            # the radd assignment that follows
+            # the assignment that follows and defines how many zero rows/columns pad the other factor: the first later assignment of a
+            # name that is used as a size inside a zeros(...) call
             radd = None
+            pad_names = {x.id for z in ast.walk(f.node) if isinstance(z, ast.Call) and norm(z.func).endswith("zeros") and z.args
+                         for x in ast.walk(z.args[0]) if isinstance(x, ast.Name)}
             for m in ast.walk(f.node):
-                if isinstance(m, ast.Assign) and isinstance(m.targets[0], ast.Name) and m.targets[0].id == "radd" and m.lineno > n.lineno \
+                if isinstance(m, ast.Assign) and isinstance(m.targets[0], ast.Name) and m.targets[0].id in pad_names and m.lineno > n.lineno \
                         and (radd is None or m.lineno < radd.lineno):
                     radd = m
             k = f"{fs}:X1-ENRICH:{'RL' if transposed else 'LR'}:{norm(n.value)[:50]}"
@@ -57,6 +60,9 @@ def rule_enrich(model: Model):
                 continue
             v = radd.value
             form = norm(v).replace(" ", "")
+            # <factor>.shape[1] - <truncation rank>: the subtrahend is whatever name holds the rank kept before the enrichment
+            if isinstance(v, ast.BinOp) and isinstance(v.op, ast.Sub) and isinstance(v.right, ast.Name):
+                form = norm(v.left).replace(" ", "") + "-rnew"
             if form == f"{rname}.shape[1]-rnew" or form == "kick":
                 obs.append(Ob("X1-ENRICH", k, OK, model.where(f, radd), norm(radd), "radd + rnew equals the column count of the R factor identically"))
             elif form == f"{qname}.shape[1]-rnew":
